@@ -254,20 +254,31 @@ def reduce_minmax(interp, v, axis, which):
     if isinstance(base, RowAxis) and base.sel is not None:
         t = base.seg_term(t, 0)
     bound = (lambda tt: sym <= tt) if which == "min" else (lambda tt: sym >= tt)
-    for u in (root.u, root.u2):
-        interp.ctx.assume(z3.Implies(z3.substitute(dom, (root.u, u)), bound(z3.substitute(t, (root.u, u)))))
-    w = z3.Int(fresh_name("argext"))
+    keyed = hasattr(root, "keyvars")
+    if keyed:
+        kvs = [root.keyvars[k] for k in root.keys]
+        wit = [z3.Const(fresh_name(f"argext_{k}"), root.keyvars[k].sort()) for k in root.keys]
+        at = lambda term, point: z3.substitute(term, *list(zip(kvs, point)))  # noqa: E731
+        inrange = lambda point: z3.BoolVal(True)  # noqa: E731
+        w = wit
+        generic_points = [kvs, [root.keyvars2[k] for k in root.keys]]
+    else:
+        w = z3.Int(fresh_name("argext"))
+        at = lambda term, point: z3.substitute(term, (root.u, point))  # noqa: E731
+        inrange = lambda point: z3.And(point >= 0, point < root.n)  # noqa: E731
+        generic_points = [root.u, root.u2]
     nonempty = z3.Bool(fresh_name("nonempty"))
     # non-empty <=> some row is in the domain; the extremum is attained by a row (w) when non-empty
-    interp.ctx.assume(z3.Implies(nonempty, z3.And(w >= 0, w < root.n, z3.substitute(dom, (root.u, w)), sym == z3.substitute(t, (root.u, w)))))
+    interp.ctx.assume(z3.Implies(nonempty, z3.And(inrange(w), at(dom, w), sym == at(t, w))))
 
-    def instantiate(ctx, i):
-        """the defining facts of the extremum at row index i (ghost instantiation instead of a quantifier)"""
-        ins = z3.And(i >= 0, i < root.n, z3.substitute(dom, (root.u, i)))
-        ctx.assume(z3.Implies(ins, z3.And(nonempty, bound(z3.substitute(t, (root.u, i))))))
+    def instantiate(ctx, point):
+        """the defining facts of the extremum at one row (ghost instantiation instead of a quantifier);
+        point: an index term (unit universes) or a list of key terms (group universes)"""
+        ins = z3.And(inrange(point), at(dom, point))
+        ctx.assume(z3.Implies(ins, z3.And(nonempty, bound(at(t, point)))))
 
-    instantiate(interp.ctx, root.u)
-    instantiate(interp.ctx, root.u2)
+    for gp in generic_points:
+        instantiate(interp.ctx, gp)
     infflag = None
     if v.inf is not None and not rest:
         # an infinite entry makes the extremum of |x| infinite
@@ -425,6 +436,18 @@ def lemma_sum_empty(ctx, d, name="sum_empty"):
     _use("sum_empty")
     ctx.oblige(name + "/side.empty", z3.Implies(z3.And(*d.space.facts()), z3.Not(d.dom)), kind="lemma-side")
     ctx.assume(d.sym == 0)
+
+
+def sum_nonzero_witness(ctx, d, subs=()):
+    """contrapositive of sum_empty with a Skolem witness: a sum that is not 0 has a row in its domain.
+    `subs` instantiates the sum's parameters (group keys).  Returns the witness row (an Int constant)."""
+    _use("sum_empty (contrapositive: a non-zero sum has a row in its domain)")
+    sp = d.space
+    w = z3.Int(fresh_name("sumwit"))
+    sym = z3.substitute(d.sym, *subs) if subs else d.sym
+    dom = z3.substitute(d.dom, (sp.u, w), *subs)
+    ctx.assume(z3.Implies(sym != 0, z3.And(w >= 0, w < sp.n, dom)))
+    return w
 
 
 def lemma_sum_split(ctx, whole, a, b, name="sum_split"):
